@@ -237,6 +237,8 @@ impl CommandOutput {
                 Some(writer.send_commands())
             }
             (Some(mut writer), _) => {
+                // The writer still holds the bytes of its previous write.
+                writer.buffer.clear();
                 for i in dirty.drain(..) {
                     if let Some(LaneBuffer { buffer, offset }) = lane_buffers.get_mut(&i) {
                         writer.append_buffer(buffer);
